@@ -1,4 +1,4 @@
-import Fv.Lemmas.CacheBasic
+import Fv.Lemmas.CacheExpiry
 /-
 C12 — no expired entry is ever served.
 -/
@@ -62,5 +62,363 @@ def f7Run : State Unit × List Ret :=
     cache is unbounded, so "an unexpired entry of an unbounded cache is not reported missing" fails. -/
 theorem C12_fails_F7 :
     f7Run.2 = [.unit, .unit, .unit, .unit, .val (some 101), .unit, .val none] ∧ f7Run.1.now = 5000 := by decide
+
+def cfgF17 : Cfg := { ttl := some 1000 }
+
+/-- history of the F17 witness: insert at t0, wait for the TTL, `compute` -/
+def f17Run : State Unit × List Ret :=
+  run cfgF17 nullOps () (State.fresh cfgF17 () 5000)
+    [(.insert false 1 101 1, {}), (.advance 1000, {}), (.peek 1, {}), (.compute 1 102, {}), (.peek 1, {})]
+
+/-- F17: `peek` reports the entry expired, `compute` runs its closure on the expired value and
+    returns it (`Ok(old)`); the overwritten entry keeps the old deadline. -/
+theorem C12_fails_F17 :
+    f17Run.2 = [.unit, .unit, .val none, .computed (some (some 101)), .val none] := by decide
+
+def cfgF18 : Cfg := { ttl := some 3000, tti := some 500, swr := some 1000 }
+
+/-- history of the F18 witness: TTL 3 s, idle timeout 0.5 s, grace 1 s; insert, wait 3 s
+    without touching the entry, `fetch_with` -/
+def f18Run : State Unit × List Ret :=
+  run cfgF18 nullOps () (State.fresh cfgF18 () 5000)
+    [(.insert false 1 101 1, {}), (.advance 3000, {}), (.peek 1, {}), (.fetchWith 1 102 1, {})]
+
+/-- F18: the entry has been idle for 3000 ≥ 500 (and `peek` reports it expired) but the
+    stale-while-revalidate branch of `fetch_with` serves it: the branch never looks at the TTI. -/
+theorem C12_fails_F18 : f18Run.2 = [.unit, .unit, .val none, .loaded 101 true true] := by decide
+
+def cfgF19 : Cfg := { ttl := some 2000 }
+
+/-- history of the F19 witness: insert k (timer in slot 2), `clear` (timer not cancelled), two
+    seconds and two maintenance ticks later a fresh `entry(k).or_insert`, one more tick -/
+def f19Run : State Unit × List Ret :=
+  run cfgF19 nullOps () (State.fresh cfgF19 () 5000)
+    [(.insert false 1 101 1, {}), (.clear, {}), (.advance 2000, {}), (.runMaintenance, {}), (.runMaintenance, {}),
+     (.orInsert 1 102 1, {}), (.peek 1, {}), (.runMaintenance, {}), (.peek 1, {})]
+
+/-- the same history up to (excluding) the last maintenance call -/
+def f19Pre : State Unit × List Ret :=
+  run cfgF19 nullOps () (State.fresh cfgF19 () 5000)
+    [(.insert false 1 101 1, {}), (.clear, {}), (.advance 2000, {}), (.runMaintenance, {}), (.runMaintenance, {}),
+     (.orInsert 1 102 1, {})]
+
+/-- F19: the timer of the binding dropped by `clear` fires on the NEW binding of the same key
+    (value 102, written at 7000, deadline 9000): it is served, then one maintenance call later — the
+    clock still at 7000 — it is gone, in an unbounded cache. -/
+theorem C12_fails_F19 :
+    f19Run.2 = [.unit, .unit, .unit, .unit, .unit, .val (some 102), .val (some 102), .unit, .val none] ∧
+    f19Run.1.now = 7000 ∧
+    lookup f19Pre.1.map 1 = some { vid := 102, cost := 1, expiresAt := 9000 } := by decide
+
+/-! ### what the read paths do guarantee -/
+
+/-- the `(key, value id)` pairs an API call hands to its caller, for the read calls covered by
+    `C12_reads_partial` -/
+def readsOf (op : Op) (r : Ret) : List (Nat × Nat) :=
+  match op with
+  | .get k => (match r with | .val (some v) => [(k, v)] | _ => [])
+  | .peek k => (match r with | .val (some v) => [(k, v)] | _ => [])
+  | .hold k => (match r with | .val (some v) => [(k, v)] | _ => [])
+  | .multiget _ _ => (match r with | .pairs l => l | _ => [])
+  | .iter _ none => (match r with | .pairs l => l | _ => [])
+  | .iterSnapshot none => (match r with | .pairs l => l | _ => [])
+  | .snapshot => (match r with | .snap sn => sn.entries.map (fun q => (q.key, q.vid)) | _ => [])
+  | .fetchWith k _ _ => (match r with | .loaded v false false => [(k, v)] | _ => [])
+  | _ => []
+
+/-- a fresh hit of `fetch_with` (not stale, loader not invoked) is the value of an unexpired binding -/
+theorem fetchWith_fresh_served (cfg : Cfg) (s : State P) (k v c r : Nat)
+    (h : (s.fetchWith cfg k v c).2 = .loaded r false false) : Served s.map s.now cfg.tti (k, r) := by
+  revert h
+  unfold State.fetchWith
+  dsimp only
+  split
+  · intro h; simp at h
+  · next e he =>
+    split
+    · split
+      · intro h; simp at h
+      · next hx =>
+        intro h
+        simp at h
+        subst h
+        exact ⟨e, lookup_mem he, rfl, (unexpired_iff e s.now cfg.tti).1 (by simpa using hx)⟩
+    · split
+      · split
+        · intro h; simp at h
+        · intro h; simp at h
+      · intro h; simp at h
+
+theorem hold_ret (cfg : Cfg) (ops : PolicyOps P) (p0 : P) (o : Oracle) (s : State P) (k : Nat) :
+    (stepOp cfg ops p0 o s (.hold k)).2 = .val (s.resetLogs.get cfg k).2 := by
+  simp only [stepOp]
+  generalize s.resetLogs.get cfg k = r
+  obtain ⟨s', v⟩ := r
+  cases v <;> rfl
+
+/-- **C12, read paths.**  For every configuration, policy, oracle and state, every `(key, value)`
+    pair handed out by `get`/`fetch`, `peek`, `hold` (a `fetch` keeping the `Arc`), `multiget`
+    (sync and async), the batching iterator and the snapshot iterator run without interleaving,
+    `to_snapshot`, and a fresh hit of `fetch_with`, is the value of a binding that was in the map
+    when the call started and that was `Unexpired` at the time of the call (TTL deadline — also a
+    per-item one set by `insert_with_ttl` — not reached, idle deadline not reached).
+
+    `_partial`: the calls NOT covered, because the code serves expired values there, are exactly
+    `entry().or_insert` (F6, `C12_fails_F6`), `compute` (F17, `C12_fails_F17`) and the
+    stale-while-revalidate branch of `fetch_with` (F18, `C12_fails_F18`; what that branch does
+    guarantee is `fetchWith_stale_window`).  Calls that hand out values they REMOVE (`remove`,
+    `multi_remove`) are not reads.  The batching iterator with a clock advance between two
+    batches is `C12_iter_interleaved`. -/
+theorem C12_reads_partial (cfg : Cfg) (ops : PolicyOps P) (p0 : P) (o : Oracle) (s : State P) (op : Op) :
+    ∀ p ∈ readsOf op (stepOp cfg ops p0 o s op).2,
+      ∃ e, (p.1, e) ∈ s.map ∧ e.vid = p.2 ∧ Unexpired e s.now cfg.tti := by
+  intro p hp
+  show Served s.map s.now cfg.tti p
+  cases op with
+  | get k =>
+    change p ∈ readsOf (.get k) (.val (s.resetLogs.get cfg k).2) at hp
+    cases hv : (s.resetLogs.get cfg k).2 with
+    | none => rw [hv] at hp; simp [readsOf] at hp
+    | some v =>
+      rw [hv] at hp; simp [readsOf] at hp; subst hp
+      exact get_serves_unexpired cfg s.resetLogs k v hv
+  | peek k =>
+    change p ∈ readsOf (.peek k) (.val (s.resetLogs.peek cfg k)) at hp
+    cases hv : s.resetLogs.peek cfg k with
+    | none => rw [hv] at hp; simp [readsOf] at hp
+    | some v =>
+      rw [hv] at hp; simp [readsOf] at hp; subst hp
+      exact peek_serves_unexpired cfg s.resetLogs k v hv
+  | hold k =>
+    rw [hold_ret] at hp
+    cases hv : (s.resetLogs.get cfg k).2 with
+    | none => rw [hv] at hp; simp [readsOf] at hp
+    | some v =>
+      rw [hv] at hp; simp [readsOf] at hp; subst hp
+      exact get_serves_unexpired cfg s.resetLogs k v hv
+  | multiget a ks =>
+    cases a with
+    | false =>
+      change p ∈ readsOf (.multiget false ks) (.pairs (multigetSync cfg s.resetLogs ks []).2) at hp
+      simp only [readsOf] at hp
+      exact multigetSync_served cfg s.map s.now ks s.resetLogs [] rfl (RelM.of_sub (MapSub.refl _))
+        (fun q hq => by cases hq) p hp
+    | true =>
+      change p ∈ readsOf (.multiget true ks)
+        (.pairs (multigetAsync cfg ops s.resetLogs (groupByShard cfg ks) []).2) at hp
+      simp only [readsOf] at hp
+      exact multigetAsync_served cfg ops s.map s.now _ s.resetLogs [] rfl (RelM.of_sub (MapSub.refl _))
+        (fun q hq => by cases hq) p hp
+  | iter b inter =>
+    cases inter with
+    | some ad => simp [readsOf] at hp
+    | none =>
+      change p ∈ readsOf (.iter b none) (.pairs (s.resetLogs.iterAll cfg ops o b none).2) at hp
+      simp only [readsOf] at hp
+      exact iterAll_good cfg ops o s.resetLogs b none (Served s.map s.now cfg.tti) (fun _ h => h)
+        (fun a d h => by cases h) p hp
+  | iterSnapshot inter =>
+    cases inter with
+    | some ad => simp [readsOf] at hp
+    | none =>
+      change p ∈ readsOf (.iterSnapshot none) (.pairs (s.resetLogs.iterSnapshotAll cfg ops o none).2) at hp
+      simp only [readsOf] at hp
+      exact iterSnapshotAll_served cfg ops o s.resetLogs p hp
+  | snapshot =>
+    change p ∈ readsOf .snapshot (.snap (s.resetLogs.toSnapshot cfg ops o).2) at hp
+    simp only [readsOf] at hp
+    obtain ⟨q, hq, rfl⟩ := List.mem_map.1 hp
+    exact toSnapshot_served cfg ops o s.resetLogs q hq
+  | fetchWith k v c =>
+    change p ∈ readsOf (.fetchWith k v c) (s.resetLogs.fetchWith cfg k v c).2 at hp
+    generalize hr : (s.resetLogs.fetchWith cfg k v c).2 = r at hp
+    cases r with
+    | loaded x st ld =>
+      cases st <;> cases ld <;> simp [readsOf] at hp
+      subst hp
+      exact fetchWith_fresh_served cfg s.resetLogs k v c x hr
+    | _ => simp [readsOf] at hp
+  | _ => simp [readsOf] at hp
+
+/-- a state with one live and one TTL-expired binding -/
+def exSt : State Unit :=
+  { map := [(1, { vid := 101, cost := 1, expiresAt := 9000 }), (2, { vid := 102, cost := 1, expiresAt := 6000 })],
+    aux := freshAux cfgTtl (), now := 7000 }
+
+/-- non-vacuity: the read calls do hand out pairs, and only the live one -/
+example : readsOf (.multiget false [1, 2]) (stepOp cfgTtl nullOps () {} exSt (.multiget false [1, 2])).2 = [(1, 101)] := by
+  decide
+example : readsOf (.iter 1 none) (stepOp cfgTtl nullOps () { ord := [2, 1] } exSt (.iter 1 none)).2 = [(1, 101)] := by
+  decide
+example : readsOf (.iterSnapshot none) (stepOp cfgTtl nullOps () {} exSt (.iterSnapshot none)).2 = [(1, 101)] := by
+  decide
+example : readsOf .snapshot (stepOp cfgTtl nullOps () {} exSt .snapshot).2 = [(1, 101)] := by decide
+example : readsOf (.fetchWith 1 7 1) (stepOp cfgTtl nullOps () {} exSt (.fetchWith 1 7 1)).2 = [(1, 101)] := by decide
+
+/-! ### interleaved iteration: an item is read when its batch is fetched -/
+
+/-- `Iter::refill_buffer` performed at time `now` only appends to the buffer, and every item it
+    appends is the value of a binding of the map that is unexpired at `now`. -/
+theorem refill_serves_unexpired (nshards batch : Nat) (keysOf : Nat → List Nat) (m : List (Nat × Entry))
+    (now : Nat) (tti : Option Nat) (it : IterSt) :
+    ∃ added, (refill nshards batch keysOf m now tti it).buffer = it.buffer ++ added ∧
+      ∀ p ∈ added, ∃ e, (p.1, e) ∈ m ∧ e.vid = p.2 ∧ Unexpired e now tti :=
+  refill_appends nshards batch keysOf m now tti it
+
+/-- non-vacuity: a refill of batch size 2 over the keys `[2, 1]` buffers the live entry only -/
+example : (refill 1 2 (fun _ => [2, 1]) exSt.map 7000 none {}).buffer = [(1, 101)] := by decide
+
+/-- the batching iterator with the clock advanced by `d` between two `next()` calls: every
+    yielded pair is the value of a binding of the map at the start of the call that was unexpired
+    at one of the two times at which a batch can have been fetched — the clock at the start of
+    the call or the advanced clock.  (An item buffered before the advance may be yielded after
+    it: the read happens at the refill.) -/
+theorem C12_iter_interleaved (cfg : Cfg) (ops : PolicyOps P) (p0 : P) (o : Oracle) (s : State P)
+    (batch after d : Nat) (l : List (Nat × Nat))
+    (h : (stepOp cfg ops p0 o s (.iter batch (some (after, d)))).2 = .pairs l) :
+    ∀ p ∈ l, ∃ e, (p.1, e) ∈ s.map ∧ e.vid = p.2 ∧
+      (Unexpired e s.now cfg.tti ∨ Unexpired e (s.now + d) cfg.tti) := by
+  change Ret.pairs (s.resetLogs.iterAll cfg ops o batch (some (after, d))).2 = .pairs l at h
+  injection h with h
+  subst h
+  refine iterAll_good cfg ops o s.resetLogs batch (some (after, d))
+    (fun p => ∃ e, (p.1, e) ∈ s.map ∧ e.vid = p.2 ∧ (Unexpired e s.now cfg.tti ∨ Unexpired e (s.now + d) cfg.tti))
+    ?_ ?_
+  · rintro p ⟨e, h1, h2, h3⟩; exact ⟨e, h1, h2, Or.inl h3⟩
+  · intro a d' hi p hp
+    cases hi
+    obtain ⟨e, h1, h2, h3⟩ := hp
+    exact ⟨e, h1, h2, Or.inr h3⟩
+
+/-- non-vacuity: batch size 1, clock advanced by 2500 after the first item: key 1 (deadline 9000)
+    is fetched at 7000 and yielded; the second batch is fetched at 9500, when everything is expired -/
+example : (stepOp cfgTtl nullOps () { ord := [1, 2] } exSt (.iter 1 (some (1, 2500)))).2 = .pairs [(1, 101)] := by
+  decide
+
+/-! ### idle clock: `peek` does not refresh, `get` does -/
+
+/-- `peek` changes nothing but the per-call ghost logs: it does not refresh the idle clock of the
+    entry (the map is unchanged), records no access (batchers / policies unchanged) and counts
+    neither a hit nor a miss. -/
+theorem peek_does_not_refresh (cfg : Cfg) (ops : PolicyOps P) (p0 : P) (o : Oracle) (s : State P) (k : Nat) :
+    (stepOp cfg ops p0 o s (.peek k)).1.map = s.map ∧ (stepOp cfg ops p0 o s (.peek k)).1.aux = s.aux ∧
+    (stepOp cfg ops p0 o s (.peek k)).1.met = s.met ∧ (stepOp cfg ops p0 o s (.peek k)).1.now = s.now :=
+  ⟨rfl, rfl, rfl, rfl⟩
+
+def cfgTti : Cfg := { tti := some 500 }
+
+/-- a state of a TTI cache: key 1 last accessed at 6800, key 2 at 6000 (idle-expired at 7000) -/
+def exStTti : State Unit :=
+  { map := [(1, { vid := 101, cost := 1, lastAccessed := 6800 }), (2, { vid := 102, cost := 1, lastAccessed := 6000 })],
+    aux := freshAux cfgTti (), now := 7000 }
+
+/-- non-vacuity: a `peek` hit -/
+example : (stepOp cfgTti nullOps () {} exStTti (.peek 1)).2 = .val (some 101) := by decide
+
+/-- a `get` hit in a cache with an idle timeout sets `last_accessed` of that entry to the current
+    time and changes nothing else of it; the bindings of all other keys are untouched. -/
+theorem get_refreshes_idle_clock (cfg : Cfg) (ops : PolicyOps P) (p0 : P) (o : Oracle) (s : State P)
+    (k v d : Nat) (htti : cfg.tti = some d) (h : (stepOp cfg ops p0 o s (.get k)).2 = .val (some v)) :
+    ∃ e, lookup s.map k = some e ∧ e.vid = v ∧
+      lookup (stepOp cfg ops p0 o s (.get k)).1.map k = some { e with lastAccessed := s.now } ∧
+      ∀ k', k' ≠ k → lookup (stepOp cfg ops p0 o s (.get k)).1.map k' = lookup s.map k' := by
+  change Ret.val (s.resetLogs.get cfg k).2 = .val (some v) at h
+  change ∃ e, lookup s.map k = some e ∧ e.vid = v ∧
+      lookup (s.resetLogs.get cfg k).1.map k = some { e with lastAccessed := s.now } ∧
+      ∀ k', k' ≠ k → lookup (s.resetLogs.get cfg k).1.map k' = lookup s.map k'
+  rcases get_cases cfg s.resetLogs k with hg | ⟨e, he, _, hg⟩
+  · rw [hg] at h; simp at h
+  · rw [hg] at h ⊢
+    simp at h
+    refine ⟨e, he, h, ?_, ?_⟩
+    · simp only [hit_map, onHit_map, lookup_put_self, Entry.touch, htti, resetLogs_now]
+    · intro k' hk
+      simp only [hit_map, onHit_map, resetLogs_map]
+      exact lookup_put_ne _ _ _ _ hk
+
+/-- non-vacuity: the hypotheses hold for key 1 of `exStTti` -/
+example : (stepOp cfgTti nullOps () {} exStTti (.get 1)).2 = .val (some 101) ∧
+    lookup (stepOp cfgTti nullOps () {} exStTti (.get 1)).1.map 1 = some { vid := 101, cost := 1, lastAccessed := 7000 } := by
+  decide
+
+/-! ### stale-while-revalidate -/
+
+/-- `fetch_with` serves a STALE value only inside the grace window: the cache has a grace period
+    `g`, the value is the one bound to the key, its TTL deadline has passed by less than `g`; the
+    loader runs exactly once (the refresh, which the model runs inside the call) and afterwards the
+    key is bound to the freshly loaded value.  What is NOT guaranteed (F18, `C12_fails_F18`) is
+    that the served binding has not idled out. -/
+theorem fetchWith_stale_window (cfg : Cfg) (s : State P) (k v c r : Nat) (l : Bool)
+    (h : (s.fetchWith cfg k v c).2 = .loaded r true l) :
+    ∃ e g, cfg.swr = some g ∧ lookup s.map k = some e ∧ (k, e) ∈ s.map ∧ e.vid = r ∧
+      e.expiresAt ≠ 0 ∧ e.expiresAt ≤ s.now ∧ s.now < e.expiresAt + g ∧ l = true ∧
+      ∃ e', lookup (s.fetchWith cfg k v c).1.map k = some e' ∧ e'.vid = v := by
+  revert h
+  unfold State.fetchWith
+  dsimp only
+  split
+  · intro h; simp at h
+  · next e he =>
+    split
+    · split
+      · intro h; simp at h
+      · intro h; simp at h
+    · next hfresh =>
+      split
+      · next g hg =>
+        split
+        · next hlt =>
+          intro h
+          simp at h
+          refine ⟨e, g, hg, he, lookup_mem he, h.1, ?_, ?_, hlt, h.2, _, lookup_put_self _ _ _, rfl⟩
+          · intro h0; exact hfresh (Or.inl h0)
+          · exact Nat.le_of_not_lt (fun h0 => hfresh (Or.inr h0))
+        · intro h; simp at h
+      · intro h; simp at h
+
+/-- non-vacuity: TTL deadline 8000 passed by 500 < grace 1000 -/
+example : (State.fetchWith (P := Unit) { ttl := some 3000, swr := some 1000 }
+    { map := [(1, { vid := 101, cost := 1, expiresAt := 8000 })], now := 8500 } 1 102 1).2 = .loaded 101 true true := by
+  decide
+
+/-- `fetch_with` invoking the loader without serving a stale value: the value returned is the
+    freshly loaded one, the key had no unexpired binding, and afterwards the key is bound to the
+    loaded value. -/
+theorem fetchWith_miss_loads (cfg : Cfg) (s : State P) (k v c r : Nat)
+    (h : (s.fetchWith cfg k v c).2 = .loaded r false true) :
+    r = v ∧ (∀ e, lookup s.map k = some e → ¬ Unexpired e s.now cfg.tti) ∧
+      ∃ e', lookup (s.fetchWith cfg k v c).1.map k = some e' ∧ e'.vid = v := by
+  have hl : ∃ e', lookup ((s.miss 1).loadInsert cfg k v c).map k = some e' ∧ e'.vid = v :=
+    ⟨_, lookup_put_self _ _ _, rfl⟩
+  revert h
+  unfold State.fetchWith
+  dsimp only
+  split
+  · next hn =>
+    intro h; simp at h
+    refine ⟨h.symm, ?_, hl⟩
+    intro e he; rw [hn] at he; cases he
+  · next e he =>
+    split
+    · split
+      · next hx =>
+        intro h; simp at h
+        refine ⟨h.symm, fun e' he' => ?_, hl⟩
+        rw [he] at he'; cases he'
+        exact (not_unexpired_iff e s.now cfg.tti).1 hx
+      · intro h; simp at h
+    · next hfresh =>
+      have hnu : ∀ e', lookup s.map k = some e' → ¬ Unexpired e' s.now cfg.tti := by
+        intro e' he' hu; rw [he] at he'; cases he'; exact hfresh hu.1
+      split
+      · split
+        · intro h; simp at h
+        · intro h; simp at h; exact ⟨h.symm, hnu, hl⟩
+      · intro h; simp at h; exact ⟨h.symm, hnu, hl⟩
+
+/-- non-vacuity: a miss on an expired binding outside the grace window -/
+example : (State.fetchWith (P := Unit) { ttl := some 3000, swr := some 1000 }
+    { map := [(1, { vid := 101, cost := 1, expiresAt := 8000 })], now := 9000 } 1 102 1).2 = .loaded 102 false true := by
+  decide
 
 end Fv.Props.C12
